@@ -140,6 +140,38 @@ def bayerFlat [Add K] [Mul K] [Zero K] [One K] (nw : Nat) (R C : Int) (img : Nat
   | some r, some g, some b => some fun i j => r i j + g i j + b i j
   | _, _, _ => none
 
+/-- the efficiency parameter a name of the regenerated channel table (`Gen.bayerChannels`) denotes -/
+def colourOfQeName : String → Option Colour
+  | "qe_red" => some .R
+  | "qe_green" => some .G
+  | "qe_blue" => some .B
+  | _ => none
+
+/-- one channel image **as the source wires it** (`Gen.bayerChannels`, regenerated from `collect_charge_bayer`): the kernel letter, the
+einsum subscripts and the efficiency variable are read off the table; anything the table does not explain is `none` -/
+def bayerChannelFromSource [Add K] [Mul K] [Zero K] [One K] (nw : Nat) (R C : Int) (img : Nat → Int → Int → K) (qe : Colour → Nat → K)
+    (d : Int) (pattern : Int → Int → Colour) (os : Int) (name : String) : Option (Int → Int → K) :=
+  match Gen.bayerChannels.lookup name with
+  | some (letter, sub, q) =>
+    match colourOfChar letter, colourOfQeName q with
+    | some kc, some qc => if sub = "ijk,i->jk" then bayerChannel nw R C img (qe qc) d pattern os kc else none
+    | _, _ => none
+  | none => none
+
+/-- `flatten=True` **as the source sums it** (`Gen.bayerFlattenTerms`, left to right) -/
+def bayerFlatFromSource [Add K] [Mul K] [Zero K] [One K] (nw : Nat) (R C : Int) (img : Nat → Int → Int → K) (qe : Colour → Nat → K)
+    (d : Int) (pattern : Int → Int → Colour) (os : Int) : Option (Int → Int → K) :=
+  match Gen.bayerFlattenTerms with
+  | [] => none
+  | t :: ts => ts.foldl (fun acc name => match acc, bayerChannelFromSource nw R C img qe d pattern os name with
+      | some a, some ch => some fun i j => a i j + ch i j
+      | _, _ => none) (bayerChannelFromSource nw R C img qe d pattern os t)
+
+/-- `flatten=False` **as the source returns it** (`Gen.bayerSeparateOrder`) -/
+def bayerSeparateFromSource [Add K] [Mul K] [Zero K] [One K] (nw : Nat) (R C : Int) (img : Nat → Int → Int → K) (qe : Colour → Nat → K)
+    (d : Int) (pattern : Int → Int → Colour) (os : Int) : List (Option (Int → Int → K)) :=
+  Gen.bayerSeparateOrder.map (bayerChannelFromSource nw R C img qe d pattern os)
+
 /-! ## adc -/
 
 /-- `n`-th power by repeated multiplication (`img_cube[d]**order`) -/
